@@ -11,6 +11,7 @@ from ..runner import Res
 from ..util import first_diff
 
 ID = "C07"
+CASE_TIMEOUT_S = 600  # pairs at scale parse ~10^5 tokens several times; the runner's guard is not a verdict
 LEVEL = "exploration"
 RULE = (
     "cases = pairs (A, B) of newline-terminated tab-free documents (constructive block generator, corpus, line soup; "
@@ -84,7 +85,9 @@ def enumerate_cases(tier: str, shard: int, nshards: int):
     idx = 0
     for an, ak in big:
         for bn, bk in small:
-            for ci in (1, 0):
+            if an == "table_sparse_square" and bn not in ("table_sparse_square", "table_rows", "list_flat"):
+                continue
+            for ci in (1,) if an == "table_sparse_square" else (1, 0):
                 idx += 1
                 if idx % nshards != shard:
                     continue
